@@ -377,6 +377,13 @@ func (sys *sm9sys) sign(i int, st Step) *Mismatch {
 	if len(art.bytes) != st.Int("len") {
 		return &Mismatch{Step: i, Kind: "mismatch", Got: fmt.Sprintf("signature of %d bytes", len(art.bytes)), Exp: fmt.Sprintf("%d bytes", st.Int("len"))}
 	}
+	if st.Str("expsig") != "" {
+		// the exact signature GM/T 0044.2 defines for this key, message and nonce (w = e(P1, Ppub-s)^r computed by the specification)
+		if mm := Diff(i, art.bytes, st.Hex("expsig")); mm != nil {
+			mm.Note = "signature (h, S) for the scripted nonce"
+			return mm
+		}
+	}
 	sys.arts[st.Int("dst")] = art
 	return nil
 }
@@ -419,6 +426,13 @@ func (sys *sm9sys) wrap(i int, st Step) *Mismatch {
 	}
 	if len(art.key) != klen {
 		return &Mismatch{Step: i, Kind: "mismatch", Got: fmt.Sprintf("key of %d bytes", len(art.key)), Exp: fmt.Sprintf("%d bytes", klen)}
+	}
+	if st.Str("expkey") != "" {
+		// K = KDF(C || e(Ppub-e, P2)^r || ID_B, klen) with the GT value computed by the specification
+		if mm := Diff(i, art.key, st.Hex("expkey")); mm != nil {
+			mm.Note = "encapsulated key K"
+			return mm
+		}
 	}
 	sys.arts[st.Int("dst")] = art
 	return nil
@@ -480,6 +494,13 @@ func (sys *sm9sys) enc(i int, st Step) *Mismatch {
 	}
 	if enc == "asn1" && int(art.bytes[off-5]) != st.Int("entype") {
 		return &Mismatch{Step: i, Kind: "mismatch", Got: fmt.Sprintf("EnType %d", art.bytes[off-5]), Exp: fmt.Sprintf("EnType %d", st.Int("entype"))}
+	}
+	if st.Str("expct") != "" {
+		// the exact ciphertext of GM/T 0044.4 for this nonce (and IV): C1, C2 = payload under K1, C3 = MAC(K2, C2), K from the exact GT value
+		if mm := Diff(i, art.bytes, st.Hex("expct")); mm != nil {
+			mm.Note = "ciphertext for the scripted nonce"
+			return mm
+		}
 	}
 	sys.arts[st.Int("dst")] = art
 	return nil
